@@ -299,7 +299,8 @@ fn judge_mid_assign(orig: &V, pos: &V, len: Option<&V>, ins: &V, ctx: &mut Ctx) 
 }
 
 fn strings() -> Vec<V> {
-    let mut v: Vec<V> = ["", "a", "ab", "abc", "é", "aé", "éa", "日本", "aXbXc", "abcabc"].iter().map(|s| V::s(s)).collect();
+    // (語 is U+8A9E, above 32767; 😀 is outside the BMP)
+    let mut v: Vec<V> = ["", "a", "ab", "abc", "é", "aé", "éa", "日本", "aXbXc", "abcabc", "語a", "😀é"].iter().map(|s| V::s(s)).collect();
     v.push(V::Str(vec!['a'; 255]));
     v.push(V::Str(vec!['é'; 255]));
     v
@@ -378,6 +379,7 @@ impl Sweep for Universe {
             for s in [
                 "", "1", " 12 ", "1E2", "1D2", "1e2", "&H1F", "&h1f", "&17", "12abc", "abc", ".5", "-.5e1", "1e", "1e+", "nan", "inf", "NAN", "infinity", "-inf", "+5", "--5", "1.2.3",
                 "&HD", "&H1D", "&hdd", "&HABC", "&H7FFF", "&HdE", "1D", "&D",
+                "1d2", "2.5d-1", "1.5d1", "1.5D3", "1E2", "1e-2", "1d+2x", "12d", "1d2d3",
                 "&", "&H", "&HG", "1 2", "1,2", "3.", "-", "+", ".", "1E400", "&H8000", "&HFFFF", "&177777", "12345678901234567890", "é1", "1é", "  -7.25x",
             ] {
                 judge_call("VAL", &[V::s(s)], ctx);
